@@ -166,6 +166,11 @@ Definition step_gen fill (s : source) (acc : bool * list desc) (f : filter) : bo
 Definition find_preds_gen fill (s : source) (fs : list filter) (id : nat) : list desc :=
   snd (fold_left (step_gen fill s) fs (true, s_preds s id)).
 
+(* the caller set opts.FindPredecessors = custom before calling the filters: every filter takes
+   the generic branch (fp != nil), the ReferrerLister shortcut is never used *)
+Definition find_preds_custom (s : source) (custom : nat -> list desc) (fs : list filter) (id : nat) : list desc :=
+  snd (fold_left (step_gen fill_at s) fs (false, custom id)).
+
 Definition find_preds := find_preds_gen fill_at.
 Definition find_preds_prefix := find_preds_gen fill_at_prefix.
 
